@@ -3,15 +3,20 @@
 // Contracts for the verification harness in /verif (comment-only; no declarations).
 package composite
 
-//@ pred validPC(pc) = pc != nil && pc.cc != nil && validAPIResource(pc.parentResource) && pc.dynClient != nil && pc.dynClient.resources != nil && pc.dynClient.dc != nil && validClient(pc.parentClient) && pc.parentInformer != nil && pc.finalizer != nil && pc.customize != nil && pc.syncHook != nil && pc.finalizeHook != nil && pc.queue != nil && pc.ssaOptions != nil && pc.mcClient != nil && pc.revisionLister != nil && pc.eventRecorder != nil
+//@ pred validPC(pc) = pc != nil && pc.cc != nil && validAPIResource(pc.parentResource) && pc.dynClient != nil && pc.dynClient.resources != nil && pc.dynClient.dc != nil && validClient(pc.parentClient) && validInformer(pc.parentInformer) && pc.finalizer != nil && pc.customize != nil && pc.syncHook != nil && pc.finalizeHook != nil && pc.queue != nil && pc.ssaOptions != nil && pc.mcClient != nil && pc.revisionLister != nil && pc.eventRecorder != nil
+//@ pred validChildInformers(pc) = forall k schema.GroupVersionResource :: has(pc.childInformers, k) && pc.childInformers[k] != nil ==> validInformer(pc.childInformers[k])
 
 //@ func parentController.claimChildren(pc, parent) (m, err)
-//@   requires validPC(pc) && parent != nil
+//@   requires validPC(pc) && validChildInformers(pc) && parent != nil
+//@   safety C13
+//@   invariant loop 1 [C03]: childMap != nil && noNilChildren(childMap)
+//@   invariant loop 2 [C03]: childMap != nil && noNilChildren(childMap)
 //@   ensures [C03] err == nil ==> m != nil && noNilChildren(m)
 //@   ensures [C03] err != nil ==> m == nil
 
 //@ func parentController.syncRevisions(pc, parent, observedChildren, relatedObjects) (res, err)
 //@   requires validPC(pc) && parent != nil
+//@   writes-assumed fresh, pc.customize
 //@   ensures [C09] err != nil ==> res == nil
 //@   ensures [C09] err == nil ==> res != nil
 
@@ -26,7 +31,7 @@ package composite
 //@   requires validPC(pc)
 
 //@ func parentController.syncParentObject(pc, parent) (err)
-//@   requires validPC(pc) && parent != nil
+//@   requires validPC(pc) && validChildInformers(pc) && parent != nil
 //@   safety C13
 //@   bind call Manager.SyncObject: updatedParent, soErr
 //@   bind call parentController.claimChildren: observed, ccErr
@@ -42,3 +47,18 @@ package composite
 //@   ensures [C11] called(ManageChildren) ==> called(parentController.updateParentStatus)
 //@   ensures [C10,C12] called(Manager.SyncObject) && soErr != nil ==> err != nil && !called(parentController.claimChildren) && !called(ManageChildren)
 //@   ensures [C09,C12,C13] called(parentController.syncRevisions) && srErr != nil ==> err != nil && !called(ManageChildren)
+
+//@ func parentController.callHook(pc, parent, observedChildren, related) (resp, err)
+//@   requires validPC(pc) && parent != nil
+//@   safety C13
+//@   let noMatch = pc.parentSelector != nil && !matchesLabelsOf(pc.parentSelector, parent)
+//@   let finalizing = pc.finalizeHook.IsEnabled() && (parent.GetDeletionTimestamp() != nil || noMatch)
+//@   at Call(h, req, out) [C10]: (h == pc.finalizeHook && finalizing) || (h == pc.syncHook && !finalizing && pc.syncHook.IsEnabled())
+//@   at Call(h, req, out) [C10]: typeis(req, *v1.CompositeHookRequest) && unbox(req, *v1.CompositeHookRequest).Finalizing == finalizing
+//@   at Call(h, req, out) [C03]: unbox(req, *v1.CompositeHookRequest).Parent == parent && unbox(req, *v1.CompositeHookRequest).Controller == pc.cc
+//@   ensures [C10] count(Call) <= 1
+//@   ensures [C10] finalizing || pc.syncHook.IsEnabled() ==> count(Call) == 1
+//@   ensures [C10,C13] !finalizing && !pc.syncHook.IsEnabled() ==> resp == nil && err == nil
+//@   ensures [C13] err != nil ==> resp == nil
+//@   invariant loop 1 [C03]: forall j int :: 0 <= j && j <= rangeindex ==> response.Children[j] == nil || response.Children[j].GetNamespace() != "" || parent.GetNamespace() == ""
+//@   ensures [C03] err == nil && resp != nil ==> (forall j int :: 0 <= j && j < len(resp.Children) ==> resp.Children[j] == nil || resp.Children[j].GetNamespace() != "" || parent.GetNamespace() == "")
